@@ -185,6 +185,8 @@ def bytes_lua(rng, nlines=12, crlf=False):
         k = rng.randrange(5)
         if k == 0:
             body = bytes(rng.choice([b for b in range(256) if b not in (10, 13)]) for _ in range(rng.randint(0, 40)))
+            if body[:1] == b'[':
+                body = b' ' + body      # `--[[` / `--[=[` would open a block comment
             out.append(b'--' + body)
         elif k == 1:
             q = rng.choice(b'"\'')
